@@ -875,16 +875,17 @@ impl ProxyServer {
 
         // sign the request
         // Add header x-ms-azure-host-authorization
-        if let (Some(key), Some(key_guid)) = (
-            self.key_keeper_shared_state
-                .get_current_key_value()
-                .await
-                .unwrap_or(None),
-            self.key_keeper_shared_state
-                .get_current_key_guid()
-                .await
-                .unwrap_or(None),
-        ) {
+        // read the key and its id in ONE round-trip: the id must name the key that signs
+        let (current_key_value, current_key_guid) = match self
+            .key_keeper_shared_state
+            .get_current_key()
+            .await
+            .unwrap_or(None)
+        {
+            Some(k) => (Some(k.key), Some(k.guid)),
+            None => (None, None),
+        };
+        if let (Some(key), Some(key_guid)) = (current_key_value, current_key_guid) {
             let input_to_sign = hyper_client::as_sig_input(head, whole_body);
             match helpers::compute_signature(&key, input_to_sign.as_slice()) {
                 Ok(sig) => {
